@@ -53,13 +53,14 @@ def case_key(path):
 
 
 class Job:
-    def __init__(self, binary, flavour, args=(), shards=NCPU, label=None, timeout=3600, kind='driver', replay_bin=None, replay_campaign=None):
+    def __init__(self, binary, flavour, args=(), shards=NCPU, label=None, timeout=3600, kind='driver', replay_bin=None, replay_campaign=None, fallback_binary=None):
         self.binary, self.flavour, self.args, self.shards = binary, flavour, list(args), shards
         self.label = label or binary
         self.timeout = timeout
         self.kind = kind            # 'driver' | 'fuzz'
         self.replay_bin = replay_bin or binary
         self.replay_campaign = replay_campaign
+        self.fallback_binary = fallback_binary
 
 
 def load_known(prop):
@@ -99,7 +100,20 @@ def run_property(prop, spec, tier, seed, replay=None):
             if b not in targets[j.flavour]:
                 targets[j.flavour].append(b)
     try:
-        bt = vbuild.build(targets)
+        try:
+            bt = vbuild.build(targets)
+        except vbuild.BuildError:
+            # a job may name a fallback binary that needs less of the library's internals
+            if not any(j.fallback_binary for j in jobs):
+                raise
+            targets = {}
+            for j in jobs:
+                if j.fallback_binary:
+                    j.binary = j.replay_bin = j.fallback_binary
+                targets.setdefault(j.flavour, [])
+                if j.binary not in targets[j.flavour]:
+                    targets[j.flavour].append(j.binary)
+            bt = vbuild.build(targets)
     except vbuild.BuildError as e:
         # the tree under test does not build with our flavours: nothing was explored
         print('BUILD-FAILED for property %s:\n%s' % (prop, e))
